@@ -230,7 +230,7 @@ def euler_rotation_matrix(
             matrix[..., 1, 1] = 1
             matrix[..., 2, 2] = 1
             for i, char in enumerate(order):
-                rot = matrix.new_empty(matrix.shape)
+                rot = matrix.new_empty(matrix.shape[:-1] + (D,))
                 if char == "X":
                     rot[..., 0, 0] = 1
                     rot[..., 0, 1] = 0
@@ -261,7 +261,8 @@ def euler_rotation_matrix(
                     rot[..., 2, 0] = 0
                     rot[..., 2, 1] = 0
                     rot[..., 2, 2] = 1
-                matrix = rot if i == 0 else torch.bmm(matrix, rot)
+                rotation = rot if i == 0 else torch.matmul(rotation, rot)
+            matrix[..., :D] = rotation
     else:
         raise ValueError(
             f"Expected 'angles' to be scalar or tensor with last dimension size 3, got {N}"
